@@ -4,4 +4,10 @@ go 1.19
 
 require github.com/tonkeeper/tongo v0.0.0
 
+require (
+	github.com/snksoft/crc v1.1.0 // indirect
+	golang.org/x/crypto v0.17.0 // indirect
+	golang.org/x/exp v0.0.0-20230116083435-1de6713980de // indirect
+)
+
 replace github.com/tonkeeper/tongo => /repo
